@@ -35,13 +35,14 @@ def validate(trace_path, nevents):
     return vf.tlc_validate("StoreTrace", "StoreTrace.cfg", trace_path, nevents=nevents, timeout=3000, heap="12g")
 
 
-def run_store(pid, tier, *, profiles, preds, res_filter, mc_depth, gen_depth, rnd, level_text, assumptions, pred_doc):
+def run_store(pid, tier, *, profiles, preds, res_filter, mc_depth, gen_depth, rnd, level_text, assumptions, pred_doc, rpc=None):
     """profiles: list of StoreMC profiles ; preds: predicate names of StoreTrace that belong to the
     property ; res_filter(cmd) -> bool says for which commands the generic "res" predicate counts ;
     rnd: list of (random profile, histories, length)."""
     t0 = time.time()
     seed = vf.seed()
     binary = vf.build("h-store")
+    rpc_binary = vf.build("h-rpc") if rpc else None
     work = vf.new_scratch("verif-%s-" % pid)
     verdict = vf.Verdict(pid)
     cov = {"mc": [], "gen": [], "random": []}
@@ -78,6 +79,17 @@ def run_store(pid, tier, *, profiles, preds, res_filter, mc_depth, gen_depth, rn
                 raise vf.Infra("h-store random failed: %s" % p.stderr[-2000:])
             traces.append(("random:" + prof, tp, json.loads(p.stdout)))
             cov["random"].append({"profile": prof, "histories": n, "length": length, "seed": seed + i * 7919})
+        # endpoint level: the same abstract commands through KVS.Apply / Session.Apply / Txn.Apply / Catalog.* of a
+        # real single-node server (real raft, real leader loop, real TTL expiry), reads through KVS.Get/List/ListKeys
+        for i, (prof, n, length) in enumerate((rpc or {}).get(tier, [])):
+            tp = os.path.join(work, "rpc-%s-%d.ndjson" % (prof, i))
+            p = vf.run_harness(rpc_binary, ["-seed", str(seed + i * 104729), "-n", str(n), "-len", str(length), "-profile", prof, "-out", tp], timeout=3600)
+            if p.returncode != 0:
+                raise vf.Infra("h-rpc failed: %s" % p.stderr[-2000:])
+            meta = json.loads(p.stdout)
+            traces.append(("rpc:" + prof, tp, meta))
+            cov.setdefault("rpc", []).append({"profile": prof, "servers": n, "length": length, "seed": seed + i * 104729,
+                                              "events": meta["events"], "skipped_ambiguous_index": meta.get("skipped_ambiguous", 0)})
         for name, tp, meta in traces:
             r = validate(tp, meta["events"])
             n_beh += meta["behaviours"]
@@ -113,7 +125,7 @@ def run_store(pid, tier, *, profiles, preds, res_filter, mc_depth, gen_depth, rn
             "rule": "every step of every TLC-generated behaviour (one per transition of the bounded model, prefix-deduplicated) "
                     "and of seeded random histories is executed through fsm.FSM.Apply and judged by TLC (StoreTrace); "
                     "distinct_nontrivial counts distinct (command kind, result) pairs seen in histories that needed row inspection",
-            "model_check": cov["mc"], "generation": cov["gen"], "random": cov["random"],
+            "model_check": cov["mc"], "generation": cov["gen"], "random": cov["random"], "rpc_endpoint_level": cov.get("rpc", []),
             "predicates": sorted(preds), "predicate_doc": pred_doc,
             "rejected_steps_by_predicate": pred_hits,
             "known_findings_matched": verdict.known_hit,
